@@ -1,7 +1,7 @@
 /-
 C09 — feedback decoding attributes each acknowledgement to the right sent packet.
 Models: Model/FeedbackAdapter.lean (internal/cc, after the fix of F-14),
-Model/Rtpfb.lean (pkg/rtpfb, after the fixes of F-15, F-16, F-17, F-18).
+Model/Rtpfb.lean (pkg/rtpfb, after the fixes of F-15, F-16, F-17, F-18, F-40).
 Spec: Spec/Feedback.lean (flat decoders without any history).
 Only property theorems live here; ★ = full-strength clause of the property.
 Known findings kept in the code because existing tests pin them (adapter only):
@@ -10,6 +10,7 @@ numbers not in the history), F-14c (symbol 3 consumes a delta) → `_partial` + 
 -/
 import Interceptor.Proofs.FeedbackRange
 import Interceptor.Proofs.RtpfbHistory
+import Interceptor.Proofs.RtpfbAcked
 import Interceptor.Proofs.FeedbackLru
 import Interceptor.Proofs.RtpfbSpec
 set_option linter.unusedVariables false
@@ -348,6 +349,72 @@ increasing in the counter: every sent packet is reported at most once, in send o
 theorem report_once_in_order (ops : List HOp) :
     ((runOps {} ops).flatten.map PR.ctr).Pairwise (· < ·) :=
   (runOps_sorted ops {} wf_init).1
+
+/-- ★ T7 `reported_only_up_to_arrived` (the clause behind F-40): after ANY sequence of addOutgoing /
+onTWCCFeedback / onCCFBFeedback / buildReport on a fresh history, every packet of the next report
+(every report of a run is one of these: `runOps_build`) has a counter at or below the counter of a
+packet that some feedback acknowledged AS ARRIVED, and it is reported as arrived only if feedback
+acknowledged that very packet as arrived. `targets` is the ghost list of (counter, status) pairs the
+acknowledgement operations resolved to. False before the fix of F-40 (witness corpus/C09/F-40.ops). -/
+theorem reported_only_up_to_arrived (ops : List HOp) :
+    ∀ p ∈ (buildReport (finalHist {} ops)).2,
+      (∃ c, (c, true) ∈ targets {} ops ∧ p.ctr ≤ c) ∧
+      (p.arrived = true → (p.ctr, true) ∈ targets {} ops) := by
+  have inv := ackInv_run ops {} [] ackInv_init
+  simp only [List.nil_append] at inv
+  intro p hp
+  obtain ⟨hak, hle, hm⟩ := (buildReport_acked _ inv.wf).2 p hp
+  exact ⟨⟨_, inv.hi hak, hle⟩, fun ha => inv.arr _ hm ha⟩
+
+/-- ★ `no_report_before_first_arrival`: as long as no feedback has acknowledged a sent packet as
+arrived — RTCP reads without feedback, feedback about unknown streams or numbers, feedback that
+only says "not received" — nothing is reported (and, `buildReport_acked`, nothing is dropped). -/
+theorem no_report_before_first_arrival (ops : List HOp) (hno : ∀ c, (c, true) ∉ targets {} ops) :
+    (buildReport (finalHist {} ops)).2 = [] := by
+  apply List.eq_nil_iff_forall_not_mem.mpr
+  intro p hp
+  obtain ⟨⟨c, hc, _⟩, _⟩ := reported_only_up_to_arrived ops p hp
+  exact hno c hc
+
+/-- ★ `uncovered_lost_only_below_arrived`: a packet for which no feedback ever encoded a status is
+reported — necessarily as not arrived — only when feedback acknowledged a LATER packet as arrived. -/
+theorem uncovered_lost_only_below_arrived (ops : List HOp) (p : PR)
+    (hp : p ∈ (buildReport (finalHist {} ops)).2) (hun : ∀ b, (p.ctr, b) ∉ targets {} ops) :
+    p.arrived = false ∧ ∃ c, (c, true) ∈ targets {} ops ∧ p.ctr < c := by
+  obtain ⟨⟨c, hc, hle⟩, harr⟩ := reported_only_up_to_arrived ops p hp
+  refine ⟨?_, c, hc, ?_⟩
+  · cases hb : p.arrived with
+    | false => rfl
+    | true => exact absurd (harr hb) (hun true)
+  · rcases Nat.lt_or_eq_of_le hle with h | h
+    · exact h
+    · rw [← h] at hc; exact absurd hc (hun true)
+
+/-- `history.buildReport` before the repair of F-40: `highestAcked = 0` stood both for "nothing
+acknowledged yet" and for "packet 0 acknowledged" — kept as the witness of the repaired defect. -/
+def buildReportUnrepaired (h : Hist) : Hist × List PR :=
+  if h.nextReport > h.highestAcked then (h, [])
+  else
+    let (h1, res) := reportLoop (List.range' h.nextReport (h.highestAcked + 1 - h.nextReport)) h []
+    (cleanBefore h1 h1.nextReport, res)
+
+/-- F-40: on the code before the repair `no_report_before_first_arrival` fails — one packet sent,
+no feedback at all, and the report says that packet 0 did not arrive (witness corpus/C09/F-40.ops). -/
+theorem no_report_before_first_arrival_unrepaired_false :
+    ¬ (∀ h : Hist, h.acked = false → (buildReportUnrepaired h).2 = []) := by
+  intro hh
+  have := hh (addOutgoing {} 1 100 false 0 62 0) rfl
+  revert this; decide
+
+/-- … and the packet was dropped with that report: its real acknowledgement is then ignored. -/
+example : (onCCFBFeedback (buildReportUnrepaired (addOutgoing {} 1 100 false 0 62 0)).1 5 1 ⟨100, true, 4, 0⟩).2
+    = none := by decide
+
+/-- the same history on the repaired model: nothing is reported by the idle read, and the
+acknowledgement that arrives later reports packet 0 as arrived. -/
+example : (buildReport (addOutgoing {} 1 100 false 0 62 0)).2 = [] ∧
+    (buildReport (onCCFBFeedback (buildReport (addOutgoing {} 1 100 false 0 62 0)).1 5 1 ⟨100, true, 4, 0⟩).1).2
+      = [⟨1, 0, 100, false, 0, 62, true, 0, 4, 0⟩] := by decide
 
 end Rtpfb
 
